@@ -25,7 +25,7 @@ def min_seg (m):
     return min (s.seg_len for g in m.geo for s in g.segments)
 # end def min_seg
 
-def current_field (m, T = None, Tv = None, unit = None):
+def current_field (m, T = None, Tv = None, unit = None, upper_only = None):
     """ map: quantised midpoint of every half-segment -> sum of I * tau
         (tau = unit vector of current flow). Halves below z = 0 (images)
         are dropped over ground. T / Tv transform points / vectors.
@@ -39,7 +39,7 @@ def current_field (m, T = None, Tv = None, unit = None):
         for e, sg in ((np.asarray (p.ends [0], float), -1), (np.asarray (p.ends [1], float), 1)):
             h   = (P + e) / 2
             mid = (P + h) / 2
-            if m.media is not None and mid [2] < 0:
+            if (m.media is not None if upper_only is None else upper_only) and mid [2] < 0:
                 continue
             tau = (h - P) * sg
             tau = tau / np.linalg.norm (tau)
